@@ -215,7 +215,8 @@ def points(t, case, setting):
     if cls == "Log":
         nu = getp(t, "nu")
         mininu = case["ctor"]["mininu"]
-        z = np.exp(u * 20.)
+        # shifted argument from 1e-9 to 1e130
+        z = np.exp(np.where(u < 0, u * 20., u * 300.))
         z = z[z > mininu * 1.001]
         if len(z) == 0:
             raise Skip()
@@ -314,7 +315,12 @@ def points(t, case, setting):
             v = u * 1e3
             return dict(x=v * xmax, sx=np.abs(v * xmax) + xmax,
                         loc=np.full(len(u), xmax), lab=lab)
-        v = u * 13.8 / abs(lam)
+        # t = lam*x/xmax from -13.8 (the map flattens towards -1/lam) to
+        # 600 (exp overflows beyond 709)
+        t = np.where(u < 0, u * 13.8, u * 600.)
+        v = t / lam
+        lab.append("manly:lam*x>13.8" if (t > 13.8).any()
+                   else "manly:lam*x<=13.8")
         return dict(x=v * xmax, sx=np.abs(v * xmax) + xmax / abs(lam),
                     loc=np.full(len(u), xmax / abs(lam)), lab=lab)
 
